@@ -1,4 +1,9 @@
 import M3d.Lemmas.C17Num
+import M3d.Lemmas.C17Search
+import M3d.Lemmas.C17Bezier
+import M3d.Lemmas.C17Split
+import M3d.Lemmas.C17Seg
+import M3d.Gen.Binomial
 /-!
 # C17 — numerical and curve kernels satisfy their defining equations
 
@@ -9,7 +14,7 @@ Every theorem is about the generic model instantiated at an arbitrary linearly o
 (so at ℚ — the instance the exact-mode correspondence runs — and at ℝ).
 -/
 namespace M3d.C17
-open M3d.Num
+open M3d.Num M3d.Curves M3d.Search
 
 variable {K : Type} [Field K]
 
@@ -184,5 +189,438 @@ theorem divide_root_linear (a b r y : K) (hb : b = 1) (hr : a + r * b = 0) :
   linear_combination hr
 
 example : Poly.divideRoot [(6 : ℚ), -5, 1] 2 = some [-3, 1] := by decide +kernel
+
+
+/-! ## Closed-form root branches of `IterRealRoots` (degree ≤ 2) -/
+
+section Ordered
+variable [LinearOrder K] [IsStrictOrderedRing K]
+
+/-- Zero leading coefficients are dropped first and do not change the answer. -/
+theorem roots_leading_zero (sqrt : K → K) (p : List K) :
+    Poly.realRootsLow sqrt (p ++ [0]) = Poly.realRootsLow sqrt p := by
+  simp only [Poly.realRootsLow, strip_append_zero]
+
+/-- The zero polynomial is reported as "every x is a root" (one NaN in Go); a non-zero constant
+has no roots. -/
+theorem roots_constant (sqrt : K → K) (c : K) (hc : c ≠ 0) :
+    Poly.realRootsLow sqrt ([] : List K) = .all ∧ Poly.realRootsLow sqrt [c] = .some [] := by
+  have := strip_of_last_ne [] c hc
+  simp only [List.nil_append] at this
+  exact ⟨rfl, by simp only [Poly.realRootsLow, this]⟩
+
+/-- Degree 1: exactly the root `−b/a`. -/
+theorem linear_root_exact (sqrt : K → K) (a b : K) (ha : a ≠ 0) :
+    Poly.realRootsLow sqrt [b, a] = .some [-b / a] ∧ ∀ y, b + a * y = 0 ↔ y = -b / a := by
+  constructor
+  · have := strip_of_last_ne [b] a ha
+    simp only [List.cons_append, List.nil_append] at this
+    simp only [Poly.realRootsLow, this]
+  · intro y
+    constructor
+    · intro h; field_simp; linarith
+    · intro h; rw [h]; field_simp; ring
+
+/-- Degree 2, negative discriminant: no root is reported and there is none. -/
+theorem quadratic_no_roots (sqrt : K → K) (a b c : K) (ha : a ≠ 0) (hd : b * b - 4 * a * c < 0) :
+    Poly.realRootsLow sqrt [c, b, a] = .some [] ∧ ∀ y, a * y * y + b * y + c ≠ 0 := by
+  constructor
+  · have := strip_of_last_ne [c, b] a ha
+    simp only [List.cons_append, List.nil_append] at this
+    simp only [Poly.realRootsLow, this]
+    push_cast
+    rw [if_pos hd]
+  · intro y h
+    have : (2 * a * y + b) ^ 2 = b * b - 4 * a * c := by linear_combination 4 * a * h
+    have := sq_nonneg (2 * a * y + b)
+    linarith
+
+/-- Degree 2, non-negative discriminant (and `math.Sqrt` returning a square root of it): two
+values are reported, in ascending order, and they are exactly the real roots. -/
+theorem quadratic_roots_exact (sqrt : K → K) (a b c : K) (ha : a ≠ 0) (hd : 0 ≤ b * b - 4 * a * c)
+    (hs : sqrt (b * b - 4 * a * c) * sqrt (b * b - 4 * a * c) = b * b - 4 * a * c) :
+    ∃ r1 r2, Poly.realRootsLow sqrt [c, b, a] = .some [r1, r2] ∧ r1 ≤ r2 ∧
+      ∀ y, a * y * y + b * y + c = 0 ↔ (y = r1 ∨ y = r2) := by
+  have hst := strip_of_last_ne [c, b] a ha
+  simp only [List.cons_append, List.nil_append] at hst
+  set s := sqrt (b * b - 4 * a * c) with hsdef
+  have h2a : (2 : K) * a ≠ 0 := mul_ne_zero two_ne_zero ha
+  have key : ∀ y, a * y * y + b * y + c = 0 ↔ (y = (-b - s) / (2 * a) ∨ y = (-b + s) / (2 * a)) := by
+    intro y
+    have fac : 4 * a * (a * y * y + b * y + c) = (2 * a * y + b - s) * (2 * a * y + b + s) := by
+      linear_combination hs
+    constructor
+    · intro h
+      rw [h, mul_zero] at fac
+      rcases mul_eq_zero.mp fac.symm with h' | h'
+      · right; field_simp; linarith
+      · left; field_simp; linarith
+    · intro h
+      have h4 : (4 : K) * a ≠ 0 := mul_ne_zero four_ne_zero ha
+      have : (2 * a * y + b - s) * (2 * a * y + b + s) = 0 := by
+        rcases h with h | h
+        · have : 2 * a * y + b + s = 0 := by rw [h]; field_simp; ring
+          rw [this, mul_zero]
+        · have : 2 * a * y + b - s = 0 := by rw [h]; field_simp; ring
+          rw [this, zero_mul]
+      rw [← fac] at this
+      exact (mul_eq_zero.mp this).resolve_left h4
+  by_cases hsw : (-b - s) / (2 * a) > (-b + s) / (2 * a)
+  · refine ⟨(-b + s) / (2 * a), (-b - s) / (2 * a), ?_, hsw.le, fun y => (key y).trans or_comm⟩
+    simp only [Poly.realRootsLow, hst]
+    push_cast
+    rw [if_neg (not_lt.mpr hd), if_pos hsw]
+  · refine ⟨(-b - s) / (2 * a), (-b + s) / (2 * a), ?_, not_lt.mp hsw, key⟩
+    simp only [Poly.realRootsLow, hst]
+    push_cast
+    rw [if_neg (not_lt.mpr hd), if_neg hsw]
+
+example : Poly.realRootsLow (fun _ => (1 : ℚ)) [6, -5, 1] = .some [2, 3] := by decide +kernel
+
+/-! ## Angle helpers (`toolbox3d/angles.go`), period `τ > 0` abstract -/
+
+/-- `CanonicalAngle(θ)` is congruent to `θ` modulo the period and lies in `[0, τ)`. -/
+theorem canonical_angle_congruent (trunc : K → Int) (ht : IsTrunc trunc) (τ θ : K) (hτ : 0 < τ) :
+    ∃ k : Int, Angle.canonicalAngle trunc τ θ = θ + (k : K) * τ ∧
+      0 ≤ Angle.canonicalAngle trunc τ θ ∧ Angle.canonicalAngle trunc τ θ < τ := by
+  obtain ⟨n, hn, hpos, hneg⟩ := fmod_spec trunc ht τ θ hτ
+  simp only [Angle.canonicalAngle]
+  push_cast
+  rcases le_total 0 θ with h | h
+  · obtain ⟨h1, h2⟩ := hpos h
+    rw [if_neg (not_lt.mpr h1)]
+    exact ⟨-n, by rw [hn]; push_cast; ring, h1, h2⟩
+  · obtain ⟨h1, h2⟩ := hneg h
+    split
+    · rename_i hlt
+      refine ⟨-n + 1, by rw [hn]; push_cast; ring, by linarith, by linarith⟩
+    · rename_i hge
+      have h0 : Angle.fmod trunc θ τ = 0 := le_antisymm h2 (not_lt.mp hge)
+      exact ⟨-n, by rw [hn]; push_cast; ring, by rw [h0], by rw [h0]; exact hτ⟩
+
+/-- `AngleDist(θ₁, θ₂)` is the circular distance: it is `|θ₁ − θ₂ + kτ|` for some integer `k`, and
+no integer shift gives a smaller value. -/
+theorem angle_dist_circular (trunc : K → Int) (ht : IsTrunc trunc) (τ θ1 θ2 : K) (hτ : 0 < τ) :
+    (∃ k : Int, Angle.angleDist trunc τ θ1 θ2 = |θ1 - θ2 + (k : K) * τ|) ∧
+      ∀ m : Int, Angle.angleDist trunc τ θ1 θ2 ≤ |θ1 - θ2 + (m : K) * τ| := by
+  obtain ⟨k1, e1, a0, a1⟩ := canonical_angle_congruent trunc ht τ θ1 hτ
+  obtain ⟨k2, e2, b0, b1⟩ := canonical_angle_congruent trunc ht τ θ2 hτ
+  simp only [Angle.angleDist, abs'_eq, min'_eq]
+  set a := Angle.canonicalAngle trunc τ θ1
+  set b := Angle.canonicalAngle trunc τ θ2
+  have hx1 : -τ < a - b := by linarith
+  have hx2 : a - b < τ := by linarith
+  have ex : a - b = θ1 - θ2 + ((k1 - k2 : Int) : K) * τ := by rw [e1, e2]; push_cast; ring
+  constructor
+  · rcases le_total |a - b| (τ - |a - b|) with h | h
+    · exact ⟨k1 - k2, by rw [min_eq_left h, ex]⟩
+    · rw [min_eq_right h]
+      rcases le_total 0 (a - b) with hs | hs
+      · refine ⟨k1 - k2 - 1, ?_⟩
+        rw [abs_of_nonneg hs]
+        have : θ1 - θ2 + ((k1 - k2 - 1 : Int) : K) * τ = (a - b) - τ := by rw [ex]; push_cast; ring
+        rw [this, abs_of_neg (by linarith)]; ring
+      · refine ⟨k1 - k2 + 1, ?_⟩
+        rw [abs_of_nonpos hs]
+        have : θ1 - θ2 + ((k1 - k2 + 1 : Int) : K) * τ = (a - b) + τ := by rw [ex]; push_cast; ring
+        rw [this, abs_of_pos (by linarith)]; ring
+  · intro m
+    have := circ_min τ (a - b) hτ hx1 hx2 (m - (k1 - k2))
+    have e : a - b + ((m - (k1 - k2) : Int) : K) * τ = θ1 - θ2 + (m : K) * τ := by
+      rw [ex]; push_cast; ring
+    rw [e] at this
+    exact this
+
+/-- Non-vacuity of `IsTrunc`, and the replay of F14: with period 7, the repaired code maps `−1/2`
+to `13/2`, whereas the code as found returned `1/2`. -/
+example :
+    let tr : ℚ → Int := fun q => q.num.tdiv q.den
+    Angle.canonicalAngle tr 7 (-1/2) = 13/2 ∧ Angle.canonicalAngleOld tr 7 (-1/2) = 1/2 := by
+  decide +kernel
+
+end Ordered
+
+/-! ## Search optimisers (`numerical/dense_search.go`, `numerical/gss.go`) -/
+
+section SearchThms
+variable {V P B : Type} [LinearOrder V]
+
+/-- **Every recursive sample-and-zoom search** (whatever the lattice generator and the box update
+are): the returned point was evaluated, its returned value is the objective's value there, and no
+sample evaluated at *any* recursion level has a larger value. -/
+theorem search_best_of_samples (gen : B → List P) (shrink : B → P → B) (f : P → V) (r : Nat) (b : B) :
+    (trace gen shrink f r b = [] ∧ search gen shrink f r b = none) ∨
+      ∃ s, search gen shrink f r b = some (s, f s) ∧ s ∈ trace gen shrink f r b ∧
+        ∀ p ∈ trace gen shrink f r b, f p ≤ f s :=
+  search_spec gen shrink f r b
+
+end SearchThms
+
+section SearchConcrete
+variable [LinearOrder K] [IsStrictOrderedRing K]
+
+/-- `LineSearch.Maximize`: at least as good as every sample of every level. -/
+theorem line_search_best_of_samples (stops recs : Nat) (f : K → K) (mn mx : K) (x v : K)
+    (h : lineMax stops recs f mn mx = some (x, v)) :
+    v = f x ∧ x ∈ lineTrace stops recs f mn mx ∧ ∀ p ∈ lineTrace stops recs f mn mx, f p ≤ v := by
+  rcases search_spec (gen1 stops) (shrink1 stops) f recs (mn, mx) with ⟨_, h0⟩ | ⟨s, e, hs, hm⟩
+  · simp only [lineMax] at h; rw [h0] at h; cases h
+  · simp only [lineMax] at h; rw [e] at h; cases h
+    exact ⟨rfl, hs, hm⟩
+
+/-- `LineSearch.Minimize` (= maximise `−f`, negate the value): at most every sample. -/
+theorem line_search_min_best_of_samples (stops recs : Nat) (f : K → K) (mn mx : K) (x v : K)
+    (h : lineMax stops recs (fun y => -f y) mn mx = some (x, v)) :
+    -v = f x ∧ ∀ p ∈ lineTrace stops recs (fun y => -f y) mn mx, -v ≤ f p := by
+  obtain ⟨h1, _, h3⟩ := line_search_best_of_samples stops recs (fun y => -f y) mn mx x v h
+  refine ⟨by rw [h1]; ring, fun p hp => ?_⟩
+  have := h3 p hp
+  linarith
+
+/-- `GridSearch2D.Maximize`. -/
+theorem grid2_best_of_samples (xs ys recs : Nat) (f : P2 K → K) (mn mx p : P2 K) (v : K)
+    (h : grid2Max xs ys recs f mn mx = some (p, v)) :
+    v = f p ∧ p ∈ grid2Trace xs ys recs f mn mx ∧ ∀ q ∈ grid2Trace xs ys recs f mn mx, f q ≤ v := by
+  rcases search_spec (gen2 xs ys) (shrink2 xs ys) f recs (mn, mx) with ⟨_, h0⟩ | ⟨s, e, hs, hm⟩
+  · simp only [grid2Max] at h; rw [h0] at h; cases h
+  · simp only [grid2Max] at h; rw [e] at h; cases h
+    exact ⟨rfl, hs, hm⟩
+
+/-- `GridSearch3D.Maximize`. -/
+theorem grid3_best_of_samples (xs ys zs recs : Nat) (f : P3 K → K) (mn mx p : P3 K) (v : K)
+    (h : grid3Max xs ys zs recs f mn mx = some (p, v)) :
+    v = f p ∧ p ∈ grid3Trace xs ys zs recs f mn mx ∧
+      ∀ q ∈ grid3Trace xs ys zs recs f mn mx, f q ≤ v := by
+  rcases search_spec (gen3 xs ys zs) (shrink3 xs ys zs) f recs (mn, mx) with ⟨_, h0⟩ | ⟨s, e, hs, hm⟩
+  · simp only [grid3Max] at h; rw [h0] at h; cases h
+  · simp only [grid3Max] at h; rw [e] at h; cases h
+    exact ⟨rfl, hs, hm⟩
+
+/-- `GSS` (a minimiser): the returned point was evaluated and no evaluated point has a smaller
+value — for every objective (unimodal or not), every `phi`, every iteration count. -/
+theorem gss_best_of_samples (f : K → K) (phi mn mx : K) (iters : Nat) :
+    (gss f phi mn mx iters).1 ∈ (gss f phi mn mx iters).2 ∧
+      ∀ p ∈ (gss f phi mn mx iters).2, f (gss f phi mn mx iters).1 ≤ f p :=
+  gss_spec f phi mn mx iters
+
+/-- Replay of F15 on the model of the code as found: two stops on `[0,8]`, one recursion, an
+objective with bumps of height 2 around 2 and 3 around 6: the old recursion returned `(7/2, 0)`
+although it had evaluated `f 6 = 3`; the repaired one returns `(6, 3)`. -/
+example :
+    let f : ℚ → ℚ := fun x =>
+      if x < 3/2 then 0 else if x < 5/2 then 2 else if x < 11/2 then 0 else if x < 13/2 then 3 else 0
+    lineMaxOld 2 1 f 0 8 = some (7/2, 0) ∧ lineMax 2 1 f 0 8 = some (6, 3) ∧
+      lineTrace 2 1 f 0 8 = [2, 6, 7/2, 13/2] := by
+  decide +kernel
+
+end SearchConcrete
+
+/-! ## Bezier curves (`model2d/curves.go`) -/
+
+/-- Executable check of the regenerated table: shape and every entry. -/
+def tableCheck (tbl : List (List Nat)) : Bool :=
+  (List.range tbl.length).all fun r =>
+    (tbl.getD r []).length == r + 2 &&
+      (List.range (r + 2)).all fun i => (tbl.getD r []).getD i 0 == (r + 1).choose i
+
+/-- **The `binomialCoeffs` table in the source is Pascal's triangle**: row `r` has `r+2` entries
+and entry `i` is `C(r+1, i)`.  Decided by the kernel on the table regenerated from `/repo`. -/
+theorem binomial_table_eq_choose :
+    ∀ r, r < M3d.Gen.binomialTable.length →
+      (M3d.Gen.binomialTable.getD r []).length = r + 2 ∧
+        ∀ i, i ≤ r + 1 → (M3d.Gen.binomialTable.getD r []).getD i 0 = (r + 1).choose i := by
+  have h : tableCheck M3d.Gen.binomialTable = true := by decide +kernel
+  intro r hr
+  simp only [tableCheck, List.all_eq_true, List.mem_range, Bool.and_eq_true, beq_iff_eq] at h
+  obtain ⟨h1, h2⟩ := h r hr
+  exact ⟨h1, fun i hi => h2 i (by omega)⟩
+
+theorem table_ok : TableOK M3d.Gen.binomialTable :=
+  fun r hr i hi => (binomial_table_eq_choose r hr).2 i hi
+
+/-- `BezierCurve.Eval` with any correct table and enough fuel is de Casteljau's algorithm. -/
+theorem bezEvalFuel_eq (tbl : List (List Nat)) (htbl : TableOK tbl) (t : K) :
+    ∀ (fuel : Nat) (b : List K), 2 ≤ b.length → b.length ≤ fuel + tbl.length + 1 →
+      bezEvalFuel tbl fuel b t = deCasteljau b t := by
+  intro fuel
+  induction fuel with
+  | zero =>
+    intro b h2 hf
+    rcases b with _ | ⟨b0, _ | ⟨b1, _ | ⟨b2, _ | ⟨b3, _ | ⟨b4, rest⟩⟩⟩⟩⟩
+    · simp at h2
+    · simp at h2
+    · simp only [bezEvalFuel, deCasteljau, iter, dcStep, List.length_cons, List.length_nil, List.headD]
+    · simp only [bezEvalFuel, deCasteljau, iter, dcStep, List.length_cons, List.length_nil, List.headD]
+      push_cast; ring
+    · simp only [bezEvalFuel, deCasteljau, iter, dcStep, List.length_cons, List.length_nil, List.headD]
+      push_cast; ring
+    · simp only [bezEvalFuel]
+      split
+      · rename_i hlt
+        push_cast
+        rw [fast_eq_bern tbl htbl _ t h2 hlt, ← D_eq_bern, deCasteljau_eq_D _ _ (by simp)]
+      · rename_i hge
+        exfalso; simp only [List.length_cons] at hge hf; omega
+  | succ fuel ih =>
+    intro b h2 hf
+    rcases b with _ | ⟨b0, _ | ⟨b1, _ | ⟨b2, _ | ⟨b3, _ | ⟨b4, rest⟩⟩⟩⟩⟩
+    · simp at h2
+    · simp at h2
+    · simp only [bezEvalFuel, deCasteljau, iter, dcStep, List.length_cons, List.length_nil, List.headD]
+    · simp only [bezEvalFuel, deCasteljau, iter, dcStep, List.length_cons, List.length_nil, List.headD]
+      push_cast; ring
+    · simp only [bezEvalFuel, deCasteljau, iter, dcStep, List.length_cons, List.length_nil, List.headD]
+      push_cast; ring
+    · simp only [bezEvalFuel]
+      split
+      · rename_i hlt
+        push_cast
+        rw [fast_eq_bern tbl htbl _ t h2 hlt, ← D_eq_bern, deCasteljau_eq_D _ _ (by simp)]
+      · rename_i hge
+        have hl : (b0 :: b1 :: b2 :: b3 :: b4 :: rest).length = rest.length + 5 := by simp
+        rw [ih _ (by rw [List.length_dropLast]; omega) (by rw [List.length_dropLast]; omega),
+          ih _ (by rw [List.length_tail]; omega) (by rw [List.length_tail]; omega)]
+        push_cast
+        exact (deCasteljau_rec _ t h2).symm
+
+/-- **`BezierCurve.Eval` equals repeated linear interpolation for every degree**: the closed forms
+for 2, 3, 4 control points, the table branch (`recursiveBezierFast` with the regenerated
+`binomialCoeffs`) and the recursive fallback all compute de Casteljau's point, on each coordinate. -/
+theorem bezier_eval_eq_decasteljau (b : List K) (t : K) (h : 2 ≤ b.length) :
+    bezEval M3d.Gen.binomialTable b t = deCasteljau b t :=
+  bezEvalFuel_eq _ table_ok t b.length b h (by omega)
+
+/-- The recursive fallback *is* the de Casteljau recurrence (definitionally the textbook one). -/
+theorem bezier_decasteljau_rec (b : List K) (t : K) (h : 2 ≤ b.length) :
+    deCasteljau b t = deCasteljau b.dropLast t * (1 - t) + deCasteljau b.tail t * t :=
+  deCasteljau_rec b t h
+
+/-- Bernstein form: de Casteljau's point is `Σ C(n,i) (1−t)^(n−i) t^i bᵢ`. -/
+theorem bezier_decasteljau_bernstein (b : List K) (t : K) (h : b ≠ []) :
+    deCasteljau b t = bern t (b.length - 1) (seqOf b) := by
+  rw [deCasteljau_eq_D b t h, D_eq_bern]
+
+example : bezEval M3d.Gen.binomialTable [(0 : ℚ), 4, 4, 0, 8, 8] (1/2) = 27/8 := by decide +kernel
+
+
+/-- **`BezierCurve.Split(t)`**: evaluating the first returned curve at `u` gives the original curve at
+`t·u`, evaluating the second gives it at `t + (1−t)·u` — for every degree (each coordinate). -/
+theorem bezier_split_eval (b : List K) (t u : K) (h : b ≠ []) :
+    deCasteljau (split b t).1 u = deCasteljau b (t * u) ∧
+      deCasteljau (split b t).2 u = deCasteljau b (t + (1 - t) * u) :=
+  split_eval b t u h
+
+/-- `Split` keeps the number of control points, the first half starts at `b₀` and the second ends
+at the last control point. -/
+theorem bezier_split_shape (b : List K) (t : K) :
+    (split b t).1.length = b.length - 1 + 1 ∧ (split b t).2.length = b.length - 1 + 1 :=
+  split_lengths b t
+
+theorem bezPolyFuel_eq [DecidableEq K] (t : K) :
+    ∀ (fuel : Nat) (b : List K), b ≠ [] → b.length ≤ fuel + 1 →
+      Poly.eval (bezPolyFuel fuel b) t = deCasteljau b t := by
+  intro fuel
+  induction fuel with
+  | zero =>
+    intro b hb hl
+    rcases b with _ | ⟨b0, _ | ⟨b1, rest⟩⟩
+    · exact absurd rfl hb
+    · simp [bezPolyFuel, deCasteljau, iter, Poly.eval_eq_spec]
+    · simp at hl
+  | succ fuel ih =>
+    intro b hb hl
+    rcases b with _ | ⟨b0, _ | ⟨b1, rest⟩⟩
+    · exact absurd rfl hb
+    · simp [bezPolyFuel, deCasteljau, iter, Poly.eval_eq_spec]
+    · have h2 : 2 ≤ (b0 :: b1 :: rest).length := by simp
+      simp only [bezPolyFuel]
+      rw [poly_eval_add, poly_eval_mul, poly_eval_mul,
+        ih _ (by simp) (by rw [List.length_dropLast]; simp at hl ⊢; omega),
+        ih _ (by simp) (by rw [List.length_tail]; simp at hl ⊢; omega),
+        deCasteljau_rec _ t h2]
+      simp only [Poly.eval_eq_spec, Poly.evalSpec_cons, Poly.evalSpec_nil]
+      push_cast; ring
+
+/-- **`BezierCurve.Polynomials()`** converts each coordinate into a polynomial whose value at `t`
+is the curve's coordinate at `t`. -/
+theorem bezier_polynomials_eval [DecidableEq K] (b : List K) (t : K) (h : b ≠ []) :
+    Poly.eval (bezPoly b) t = deCasteljau b t :=
+  bezPolyFuel_eq t b.length b h (by omega)
+
+/-! ## Polyline and joined curves -/
+
+section CurvesOrdered
+variable [LinearOrder K] [IsStrictOrderedRing K]
+
+/-- **`SegmentCurve.Eval(t)` is the point a fraction `t` of the way along the polyline**: the
+program (cumulative start offsets computed by `NewSegmentCurve`, `sort.SearchFloat64s`, the
+index fix-up, interpolation inside the chosen segment) equals the arclength walk `segSpec`, for
+every polyline whose segments have positive length and every `t` (also outside `[0,1]`, where the
+first/last segment is extrapolated).  `sqrt` is `math.Sqrt`. -/
+theorem segment_curve_eval (sqrt : K → K) (segs : List (Seg K)) (hne : segs ≠ [])
+    (hpos : ∀ s ∈ segs, 0 < segLen sqrt s) (t : K) :
+    segEval sqrt segs t = segSpec sqrt segs t := by
+  have e : segEval sqrt segs t = evalFrom sqrt ((0 : Nat) : K) segs
+      (t * (cumulative ((0 : Nat) : K) (segs.map (segLen sqrt))).2) := rfl
+  rw [e, evalFrom_eq_walk sqrt segs hne hpos, segSpec]
+  congr 1
+  push_cast; ring
+
+/-- Replay of F7 (L-shaped polyline, `t = 1/4`): the code as found returned `(4, −2)`; the repaired
+code and the specification give `(2, 0)`. -/
+example :
+    let sq : ℚ → ℚ := fun x => if x = 16 then 4 else 0
+    let L : List (Seg ℚ) := [⟨0, 0, 4, 0⟩, ⟨4, 0, 4, 4⟩]
+    segEvalOld sq L (1/4) = (4, -2) ∧ segEval sq L (1/4) = (2, 0) ∧ segSpec sq L (1/4) = (2, 0) := by
+  decide +kernel
+
+/-- **`JoinedCurve.Eval(t)`** for `0 ≤ t ≤ 1` and `n ≥ 1` sub-curves: sub-curve `i` is evaluated at
+`u = t·n − i` with `0 ≤ u ≤ 1` (each sub-curve consumes an equal share of `t`; `u = 1` only on the
+last one).  `trunc` is Go's `int(·)`. -/
+theorem joined_curve_eval (trunc : K → Int) (ht : IsTrunc trunc) (n : Nat) (hn : 0 < n) (t : K)
+    (h0 : 0 ≤ t) (h1 : t ≤ 1) :
+    ∃ i u, joinedIndex trunc n t = some (i, u) ∧ i < n ∧ u = t * (n : K) - (i : K) ∧
+      0 ≤ u ∧ u ≤ 1 ∧ (u < 1 ∨ i = n - 1) := by
+  have hnK : (0 : K) < (n : K) := by exact_mod_cast hn
+  have hx0 : 0 ≤ t * (n : K) := mul_nonneg h0 hnK.le
+  have hx1 : t * (n : K) ≤ (n : K) := by nlinarith
+  obtain ⟨hlo, hhi⟩ := (ht (t * (n : K))).1 hx0
+  set i0 := trunc (t * (n : K)) with hi0
+  have hi0nn : 0 ≤ i0 := by
+    have : (-1 : K) < (i0 : K) := by linarith
+    have : (-1 : Int) < i0 := by exact_mod_cast this
+    omega
+  have hi0le : i0 ≤ (n : Int) := by
+    have : (i0 : K) ≤ ((n : Int) : K) := by push_cast; linarith
+    exact_mod_cast this
+  simp only [joinedIndex]
+  rw [← hi0]
+  by_cases heq : i0 = (n : Int)
+  · refine ⟨n - 1, t * (n : K) - ((n - 1 : Nat) : K), ?_, by omega, rfl, ?_, ?_, Or.inr rfl⟩
+    · simp only [heq, if_true]
+      have hc : ¬ ((n : Int) - 1 < 0 ∨ (n : Int) ≤ (n : Int) - 1) := by omega
+      rw [if_neg hc]
+      have e1 : ((n : Int) - 1).toNat = n - 1 := by omega
+      have e2 : (((n : Int) - 1 : Int) : K) = ((n - 1 : Nat) : K) := by
+        have : ((n : Int) - 1 : Int) = ((n - 1 : Nat) : Int) := by omega
+        rw [this]; push_cast; rfl
+      rw [e1, e2]
+    · have : (i0 : K) = (n : K) := by rw [heq]; push_cast; rfl
+      have e : ((n - 1 : Nat) : K) = (n : K) - 1 := by
+        rw [Nat.cast_sub (by omega)]; simp
+      rw [e]; linarith
+    · have e : ((n - 1 : Nat) : K) = (n : K) - 1 := by
+        rw [Nat.cast_sub (by omega)]; simp
+      rw [e]; linarith
+  · have hlt : i0 < (n : Int) := lt_of_le_of_ne hi0le heq
+    refine ⟨i0.toNat, t * (n : K) - (i0 : K), ?_, by omega, ?_, by linarith, by linarith, Or.inl (by linarith)⟩
+    · have hc : ¬ (i0 < 0 ∨ (n : Int) ≤ i0) := by omega
+      simp only [if_neg heq, if_neg (not_lt.mpr hi0nn), if_neg hc]
+    · have : ((i0.toNat : Nat) : K) = (i0 : K) := by
+        have : ((i0.toNat : Nat) : Int) = i0 := Int.toNat_of_nonneg hi0nn
+        exact_mod_cast congrArg (fun z : Int => (z : K)) this
+      rw [this]
+
+end CurvesOrdered
 
 end M3d.C17
